@@ -2,8 +2,6 @@
 #[verifier::external_body] pub struct TypeVar { _p: u32 }
 #[verifier::external_body] pub struct Prim { _p: u64 }
 #[verifier::external_body] pub struct Constructor { _p: u64 }
-#[verifier::external_body] pub struct UnaryOp { _p: u64 }
-#[verifier::external_body] pub struct BinaryOp { _p: u64 }
 #[verifier::external_body] pub struct ClosureParam { _p: u64 }
 #[verifier::external_body] #[derive(Clone, Copy)] pub struct MySyntaxNodePtr { _p: u64 }
 #[verifier::external_body] #[derive(Clone, Copy)] pub struct ExprId { _p: u32 }
@@ -103,3 +101,18 @@ pub open spec fn named_args_ok(genv: PackageTypeEnv, hint: Seq<char>, args: Seq<
 #[verifier::external_body] pub struct HirIdent { _p: u64 }
 impl HirIdent { pub uninterp spec fn text(&self) -> Seq<char>; #[verifier::external_body] pub fn to_ident_name(&self) -> (r: String) ensures r@ == self.text() { unimplemented!() } }
 #[verifier::external_body] pub fn no_params() -> (r: Vec<Ty>) ensures r@.len() == 0 { unimplemented!() }        // vec![]
+
+// ---- operators (U-INFERCTRL) ----
+pub open spec fn is_arith(op: BinaryOp) -> bool { op is Add || op is Sub || op is Mul || op is Div }
+pub open spec fn is_logic(op: BinaryOp) -> bool { op is And || op is Or }
+pub open spec fn binary_rule_ok(op: BinaryOp, l: Expr, r: Expr, ty: Ty, rec: Set<Constraint>) -> bool {
+    if is_arith(op) {
+        // both operands have the type of the result
+        rec.contains(Constraint::TypeEqual(expr_ty(l), ty)) && rec.contains(Constraint::TypeEqual(expr_ty(r), ty))
+    } else if is_logic(op) {
+        ty is TBool && rec.contains(Constraint::TypeEqual(expr_ty(l), Ty::TBool)) && rec.contains(Constraint::TypeEqual(expr_ty(r), Ty::TBool))
+    } else {
+        // comparison / equality: a bool; the two operands have ONE type
+        ty is TBool && (rec.contains(Constraint::TypeEqual(expr_ty(l), expr_ty(r))) || rec.contains(Constraint::TypeEqual(expr_ty(r), expr_ty(l))))
+    }
+}
